@@ -49,7 +49,7 @@ type c14Case struct {
 }
 
 var c14HostPool = []string{"www.corp.example.com", "www.corp-example.com", "intranet", "db", "api.v2.corp.example.com", "mail.partner.example.org", "wwwxcorp.example.com",
-	"a.b.c.d.example.net", "printer.local", "x.corp.example.com.evil.test", "10.1.2.3", "192.168.7.9", "www.corp.example.comx", "glob1.example", "globa.example", "glob12.example", "localhost", "intraxnet", "intra.net", "intra-net"}
+	"a.b.c.d.example.net", "printer.local", "x.corp.example.com.evil.test", "10.1.2.3", "192.168.7.9", "www.corp.example.comx", "glob1.example", "globa.example", "glob12.example", "localhost", "intraxnet", "intra.net", "intra-net", "::1", "2001:db8::1", "fe80::1"}
 
 var c14Results = []string{"DIRECT", "PROXY proxy-a.example:8080", "HTTPS proxy-b.example:8443; DIRECT", "SOCKS5 socks-s.example:1080", "PROXY p1.example:1; PROXY p2.example:2", "",
 	"PROXY [2001:db8::1]:3128", "HTTPS [fd00::2]:8443; PROXY 10.1.1.1:80", "PROXY [2001:db8::1]", "PROXY 2001:db8::1:3128", "PROXY a:b:80", "SOCKS5 [::1]1080"}
@@ -187,6 +187,9 @@ func (c *c14Case) urlFor(i int, h string) *url.URL {
 	path := []string{"/x", "/p1", "/admin/settings", "/static/a.css"}[i%4] + fmt.Sprint(i/4)
 	if i%4 == 1 && i/4 == 0 {
 		path = "/p1"
+	}
+	if strings.Contains(h, ":") {
+		h = "[" + h + "]" // an IPv6 literal
 	}
 	return &url.URL{Scheme: "http", Host: h, Path: path}
 }
